@@ -4,6 +4,9 @@ import (
 	"fmt"
 	"go/ast"
 	"go/types"
+	"os"
+	"os/exec"
+	"path/filepath"
 	"sort"
 	"strings"
 	"sync"
@@ -18,6 +21,7 @@ type FuncReport struct {
 	Ctx        *FnCtx
 	Trusted    bool
 	Ms         int64
+	CaseReps   []*FuncReport // per-literal re-executions (case split); folded into Obls after discharge
 }
 
 func (e *Engine) newCtx(fi *FuncInfo, ct *Contract) *FnCtx {
@@ -30,7 +34,36 @@ func (e *Engine) newCtx(fi *FuncInfo, ct *Contract) *FnCtx {
 }
 
 // VerifyFunc generates the obligations of one function under contract.
+// CaseFix fixes one parameter to a literal (case >= 0) or to the complement of [Lo,Hi] (Rest).
+type CaseFix struct {
+	Param string
+	K     int
+	Rest  bool
+	Lo, Hi int
+}
+
 func (e *Engine) VerifyFunc(key string, targs []string) (rep *FuncReport) {
+	ct := e.Contracts[key]
+	if ct == nil || ct.Cases == nil {
+		return e.VerifyFuncCase(key, targs, nil)
+	}
+	// case split by re-execution: the function is symbolically executed once per value of the
+	// parameter (shifts and powers by a literal are linear), and once for all remaining values
+	pn, ok := ct.Cases.Expr.(*ast.Ident)
+	if !ok {
+		return e.VerifyFuncCase(key, targs, nil)
+	}
+	var reps []*FuncReport
+	for k := ct.Cases.Lo; k <= ct.Cases.Hi; k++ {
+		reps = append(reps, e.VerifyFuncCase(key, targs, &CaseFix{Param: pn.Name, K: k}))
+	}
+	reps = append(reps, e.VerifyFuncCase(key, targs, &CaseFix{Param: pn.Name, Rest: true, Lo: ct.Cases.Lo, Hi: ct.Cases.Hi}))
+	rep = reps[len(reps)-1]
+	rep.CaseReps = reps[:len(reps)-1]
+	return rep
+}
+
+func (e *Engine) VerifyFuncCase(key string, targs []string, cf *CaseFix) (rep *FuncReport) {
 	fi := e.Funcs[key]
 	ct := e.Contracts[key]
 	rep = &FuncReport{Key: key, Inst: strings.Join(targs, ",")}
@@ -80,6 +113,18 @@ func (e *Engine) VerifyFunc(key string, targs []string) (rep *FuncReport) {
 			return
 		}
 		v := c.freshVal("p_"+name, obj.Type(), st)
+		if cf != nil && cf.Param == name {
+			if cf.Rest {
+				c.facts = append(c.facts, or(app("<", v.T, itoa(int64(cf.Lo))), app(">", v.T, itoa(int64(cf.Hi)))))
+			} else {
+				lit := itoa(int64(cf.K))
+				if inv := c.typeInv(lit, obj.Type(), st); inv != "true" {
+					// the literal may be outside the parameter's type: the case is then empty
+					c.facts = append(c.facts, inv)
+				}
+				v = Val{T: lit, Typ: obj.Type()}
+			}
+		}
 		c.entryPtrFacts(v, st)
 		st.vars[obj] = v
 		if name != "" && name != "_" {
@@ -207,9 +252,20 @@ func (e *Engine) VerifyFunc(key string, targs []string) (rep *FuncReport) {
 				v, ok := c.paramVals[n]
 				return v, ok
 			}}
+		var cases []string
+		if ct.Cases != nil && false {
+			entryEnv := &Env{st: c.entry, spec: true, old: c.entry, spkg: fi.Pkg.Types, lookup: func(n string) (Val, bool) { v, ok := c.paramVals[n]; return v, ok }}
+			t := c.eval(entryEnv, ct.Cases.Expr).T
+			for k := ct.Cases.Lo; k <= ct.Cases.Hi; k++ {
+				cases = append(cases, eq(t, itoa(int64(k))))
+			}
+			cases = append(cases, or(app("<", t, itoa(int64(ct.Cases.Lo))), app(">", t, itoa(int64(ct.Cases.Hi)))))
+		}
 		for _, en := range ct.Ensures {
 			g := c.eval(postEnv, en.Expr)
-			c.oblige(exit, "post", en.Label, g.T, en.Src, en.Try, fi.Decl)
+			if o := c.oblige(exit, "post", en.Label, g.T, en.Src, en.Try, fi.Decl); o != nil {
+				o.Cases = cases
+			}
 		}
 		if ct.AssignsGiven {
 			c.checkFrame(exit, ct, postEnv)
@@ -441,7 +497,28 @@ type RunOpts struct {
 }
 
 // Discharge runs the solvers on all obligations (in parallel).
-func (e *Engine) Discharge(reps []*FuncReport, opts RunOpts) {
+func (e *Engine) Discharge(top []*FuncReport, opts RunOpts) {
+	// case-split reports are discharged like any other and folded into their parent afterwards
+	var reps []*FuncReport
+	for _, r := range top {
+		reps = append(reps, r)
+		for _, cr := range r.CaseReps {
+			// vacuity is checked on the parent only (a literal outside the parameter's type makes a case empty)
+			var keep []*Obligation
+			for _, o := range cr.Obls {
+				if !o.MustFail {
+					keep = append(keep, o)
+				}
+			}
+			cr.Obls = keep
+			reps = append(reps, cr)
+		}
+	}
+	defer func() {
+		for _, r := range top {
+			e.foldCases(r)
+		}
+	}()
 	for _, r := range reps {
 		for _, o := range r.Obls {
 			e.prepareFindings(o)
@@ -449,10 +526,49 @@ func (e *Engine) Discharge(reps []*FuncReport, opts RunOpts) {
 	}
 	var wg sync.WaitGroup
 	sem := make(chan struct{}, 10)
+	// obligations of case-split re-executions are trivial and numerous: batch them (one solver
+	// process per parent obligation, queries separated by (reset)); anything not answered
+	// `unsat` in the batch goes through the normal solver race below
+	batched := map[*Obligation]bool{}
+	for _, r := range top {
+		if len(r.CaseReps) == 0 {
+			continue
+		}
+		groups := map[string][]*Obligation{}
+		var order []string
+		for _, cr := range r.CaseReps {
+			for _, o := range cr.Obls {
+				if o.Try && !opts.Thorough || len(o.Findings) > 0 {
+					continue
+				}
+				if _, ok := groups[o.Name]; !ok {
+					order = append(order, o.Name)
+				}
+				groups[o.Name] = append(groups[o.Name], o)
+			}
+		}
+		for _, name := range order {
+			g := groups[name]
+			for _, o := range g {
+				batched[o] = true
+			}
+			wg.Add(1)
+			go func(g []*Obligation) {
+				defer wg.Done()
+				sem <- struct{}{}
+				defer func() { <-sem }()
+				e.dischargeBatch(g, opts)
+			}(g)
+		}
+	}
+	wg.Wait()
 	for _, r := range reps {
 		for _, o := range r.Obls {
 			if o.Try && !opts.Thorough {
 				o.Status = "skipped"
+				continue
+			}
+			if batched[o] && o.Status == "discharged" {
 				continue
 			}
 			wg.Add(1)
@@ -465,6 +581,71 @@ func (e *Engine) Discharge(reps []*FuncReport, opts RunOpts) {
 		}
 	}
 	wg.Wait()
+}
+
+// dischargeBatch runs the queries of g in one z3 process, separated by (reset).
+func (e *Engine) dischargeBatch(g []*Obligation, opts RunOpts) {
+	var b strings.Builder
+	for i, o := range g {
+		if i > 0 {
+			b.WriteString("(reset)\n")
+		}
+		q := o.BuildQuery("", true)
+		o.Query = q
+		b.WriteString(q)
+	}
+	file := filepath.Join(Scratch(), fmt.Sprintf("batch%p.smt2", g[0]))
+	if err := os.WriteFile(file, []byte(b.String()), 0o644); err != nil {
+		return
+	}
+	defer os.Remove(file)
+	t0 := time.Now()
+	SolverSem <- struct{}{}
+	out, _ := exec.Command("z3-new", fmt.Sprintf("-T:%d", opts.TimeoutS*3), file).CombinedOutput()
+	<-SolverSem
+	ms := time.Since(t0).Milliseconds()
+	lines := strings.Split(strings.TrimSpace(string(out)), "\n")
+	if len(lines) != len(g) {
+		return // some query misbehaved: every obligation falls back to the normal race
+	}
+	for i, o := range g {
+		if strings.TrimSpace(lines[i]) == "unsat" {
+			o.Status = "discharged"
+			o.Result = SolverResult{Status: "unsat", Solver: "z3-new", Ms: ms / int64(len(g))}
+		}
+	}
+}
+
+// foldCases merges the per-literal re-executions into the parent report: an obligation is
+// discharged iff it is discharged in the parent (all remaining values) and in every case.
+func (e *Engine) foldCases(r *FuncReport) {
+	if len(r.CaseReps) == 0 {
+		return
+	}
+	byName := map[string]*Obligation{}
+	for _, o := range r.Obls {
+		byName[o.Name] = o
+	}
+	for _, cr := range r.CaseReps {
+		if cr.OutOfSubset != "" && r.OutOfSubset == "" {
+			r.OutOfSubset = cr.OutOfSubset
+		}
+		for _, o := range cr.Obls {
+			p := byName[o.Name]
+			if p == nil {
+				byName[o.Name] = o
+				r.Obls = append(r.Obls, o)
+				continue
+			}
+			ms := p.Result.Ms + o.Result.Ms
+			if p.Status == "discharged" && o.Status != "discharged" && o.Status != "skipped" {
+				// the failing case replaces the aggregate (keeps its query, model and context for replay)
+				*p = *o
+			}
+			p.Result.Ms = ms
+		}
+	}
+	r.CaseReps = nil
 }
 
 // prepareFindings evaluates the `when` predicates of known findings (sequentially: it extends the context).
@@ -518,7 +699,32 @@ func (e *Engine) dischargeOne(o *Obligation, opts RunOpts) {
 	}
 	q := o.BuildQuery(excuse, true)
 	o.Query = q
-	r := RunSMT(q, opts.TimeoutS, opts.Seed, false, nil)
+	var r SolverResult
+	if len(o.Cases) > 0 {
+		// case split: every case must be discharged; the first failing case is reported
+		// one incremental solver run: (push)(assert case)(assert not goal)(check-sat)(pop) per case
+		base := o.BuildQuery(excuse, false)
+		base = strings.TrimSuffix(strings.TrimSpace(base), "(check-sat)")
+		var b strings.Builder
+		b.WriteString(base)
+		for _, cs := range o.Cases {
+			fmt.Fprintf(&b, "(push 1)\n(assert %s)\n(assert (not %s))\n(check-sat)\n(pop 1)\n", cs, o.Goal)
+		}
+		r = RunSMTMulti(b.String(), len(o.Cases), opts.TimeoutS*3, opts.Seed)
+		if r.Status != "unsat" && r.FailedCase >= 0 && r.FailedCase < len(o.Cases) {
+			ex := o.Cases[r.FailedCase]
+			if excuse != "" {
+				ex = and(ex, excuse)
+			}
+			q = o.BuildQuery(ex, true)
+			o.Query = q
+			rc := RunSMT(q, opts.TimeoutS, opts.Seed, false, nil)
+			rc.Ms += r.Ms
+			r = rc
+		}
+	} else {
+		r = RunSMT(q, opts.TimeoutS, opts.Seed, false, nil)
+	}
 	if r.Status != "unsat" && !o.Try {
 		// get a model for the report
 		if r.Status == "sat" {
